@@ -343,4 +343,81 @@ def getTableAliased (q : Req) (lods : List Lod) (store : List (List (Option (Lis
   | none => none
   | some r => some ((sortAliased q bs r.1).map (fun o => (o.key, aliasedTags q bs o.key)))
 
+/-! ### promql.go: getHandlerWhat — grouping the requested functions into storage queries
+
+  A requested function is its `promql.DigestWhat` code plus (harness data) the stored value field its column shows.
+  `selectorOf` mirrors `DigestWhat.Selector()`: (data_model.DigestWhat, argument in 1/1000); the harness compares the
+  table with the real function for every code (`seltab`). getHandlerWhat sorts the request by digest code, opens a
+  storage query with the first function and lets it absorb the following functions while it has fewer than
+  `tsValueCount` = 7 selectors (a function whose selector differs from the last one added takes a new slot); the
+  first function that finds the query full opens the next query. Every function is appended to the `sel` of the query
+  that absorbs it. -/
+
+structure Fn where
+  digest : Nat
+  field : Nat
+deriving DecidableEq, Repr
+
+def pctl (a : Nat) : Nat × Nat := (6, a)
+
+def selectorOf (d : Nat) : Nat × Nat :=
+  if d = 1 ∨ d = 2 ∨ d = 3 then (2, 0)          -- count, count_sec, count_raw
+  else if d = 4 ∨ d = 5 ∨ d = 6 then (5, 0)     -- sum, sum_sec, sum_raw
+  else if d = 7 then (1, 0)                     -- avg
+  else if d = 8 then (4, 0)                     -- min
+  else if d = 9 then (3, 0)                     -- max
+  else if d = 10 then pctl 1 else if d = 11 then pctl 10 else if d = 12 then pctl 50 else if d = 13 then pctl 100
+  else if d = 14 then pctl 250 else if d = 15 then pctl 500 else if d = 16 then pctl 750 else if d = 17 then pctl 900
+  else if d = 18 then pctl 950 else if d = 19 then pctl 990 else if d = 20 then pctl 999
+  else if d = 21 ∨ d = 22 then (7, 0)           -- stddev, stdvar
+  else if d = 23 ∨ d = 24 ∨ d = 25 then (8, 0)  -- cardinality*
+  else if d = 26 ∨ d = 27 then (9, 0)           -- unique, unique_sec (unique_raw is not listed in Selector())
+  else (0, 0)
+
+def tsValueCount : Nat := 7
+
+/-- `sort.Slice(whats, Digest <)` — insertion sort by digest code (functions with equal codes are identical) -/
+def insertFn (x : Fn) : List Fn → List Fn
+  | [] => [x]
+  | y :: ys => if x.digest < y.digest then x :: y :: ys else y :: insertFn x ys
+
+def sortFns : List Fn → List Fn
+  | [] => []
+  | x :: xs => insertFn x (sortFns xs)
+
+structure HandlerWhat where
+  sel : List Fn               -- columns, in order
+  qry : List (Nat × Nat)      -- selectors in use, at most tsValueCount
+deriving DecidableEq, Repr
+
+/-- loop state: finished queries (latest first), the query being filled (`tail`) -/
+structure GroupState where
+  done : List HandlerWhat
+  cur : HandlerWhat
+
+def newQuery (w : Fn) : HandlerWhat := { sel := [w], qry := [selectorOf w.digest] }
+
+/-- one function: absorbed by the current query while it has a free slot (`n < len(tail.qry)`, `n` = selectors in
+    use), else it opens the next query -/
+def groupStep (s : GroupState) (w : Fn) : GroupState :=
+  if s.cur.qry.length < tsValueCount then
+    if s.cur.qry.getLast? ≠ some (selectorOf w.digest) then
+      { s with cur := { sel := s.cur.sel ++ [w], qry := s.cur.qry ++ [selectorOf w.digest] } }
+    else
+      { s with cur := { s.cur with sel := s.cur.sel ++ [w] } }
+  else
+    { done := s.cur :: s.done, cur := newQuery w }
+
+def groupSorted : List Fn → List HandlerWhat
+  | [] => []
+  | w :: ws =>
+    let s := ws.foldl groupStep { done := [], cur := newQuery w }
+    (s.cur :: s.done).reverse
+
+/-- getHandlerWhat on the request as the client sent it -/
+def getHandlerWhat (request : List Fn) : List HandlerWhat := groupSorted (sortFns request)
+
+/-- the `cols` of a table request: per storage query the value field of each of its columns -/
+def colsOf (request : List Fn) : List (List Nat) := (getHandlerWhat request).map (fun g => g.sel.map (·.field))
+
 end SH.Table
